@@ -108,6 +108,10 @@ func decodeLzma2Both(dp *DriverPool, s []byte, cap int) (goOut []byte, goErr str
 }
 
 func runW2Case(r *Result, dp *DriverPool, cs w2Case) {
+	if tooManyTimeouts() {
+		r.Inc("cases_skipped_after_timeouts")
+		return
+	}
 	viol := func(kind, sig, note string) { r.Violate(kind, sig, cs, note) }
 	var buf bytes.Buffer
 	var w *lzma.Writer2
